@@ -168,6 +168,9 @@ func classify(sigil byte, text, line, before, after string) (string, bool) {
 		if tb == "" && strings.HasPrefix(ta, "=") {
 			return "local-definition", true
 		}
+		if strings.HasPrefix(trimmed, "declare") && (strings.HasPrefix(ta, ",") || strings.HasPrefix(ta, ")")) && !strings.HasSuffix(tb, ",") && !strings.HasSuffix(tb, "(") && strings.Contains(before, "(") {
+			return "declaration-parameter-definition", true
+		}
 		if strings.HasPrefix(trimmed, "define") && !strings.Contains(before, "personality") {
 			// inside the header: either a parameter name (after a type) or a type use
 			if strings.HasPrefix(ta, ",") || strings.HasPrefix(ta, ")") {
@@ -248,7 +251,7 @@ func enumerate(x string, perSite int) []fault {
 		tl := strings.TrimSpace(line)
 		what := ""
 		switch {
-		case strings.HasPrefix(line, "%") && strings.Contains(line, "= type") && !strings.Contains(line, "opaque"):
+		case strings.HasPrefix(line, "%") && strings.Contains(line, "= type"):
 			what = "type"
 		case strings.HasPrefix(line, "$") && strings.Contains(line, "= comdat"):
 			what = "comdat"
@@ -313,6 +316,29 @@ func collisions(x string, toks []tok, perSite int) []fault {
 		return "instruction"
 	}
 	count := map[string]int{}
+	// parameter names of one declaration
+	{
+		byLine := map[int][]tok{}
+		for _, t := range toks {
+			if t.site == "declaration-parameter-definition" {
+				ls := strings.LastIndexByte(x[:t.start], '\n') + 1
+				byLine[ls] = append(byLine[ls], t)
+			}
+		}
+		var starts []int
+		for ls := range byLine {
+			starts = append(starts, ls)
+		}
+		sort.Ints(starts)
+		for _, ls := range starts {
+			ps := byLine[ls]
+			if len(ps) >= 2 && count["declaration-parameters"] < perSite && ps[0].text != ps[1].text {
+				count["declaration-parameters"]++
+				b := ps[len(ps)-1]
+				out = append(out, fault{kind: "collision:declaration-parameters", text: x[:b.start] + ps[0].text + x[b.end:]})
+			}
+		}
+	}
 	// function extents
 	for off := 0; off < len(x); {
 		i := strings.Index(x[off:], "\ndefine ")
@@ -588,7 +614,7 @@ func variants(what, line string) []variant {
 	}
 	switch what {
 	case "type":
-		out = append(out, variant{"/then-opaque", name + " = type opaque", false}, variant{"/other-body", name + " = type { i8, i8 }", false}, variant{"/other-body-first", name + " = type { i8 }", true})
+		out = append(out, variant{"/then-opaque", name + " = type opaque", false}, variant{"/other-body", name + " = type { i8, i8 }", false}, variant{"/other-body-first", name + " = type { i8 }", true}, variant{"/opaque-first", name + " = type opaque", true})
 	case "comdat":
 		kind := "any"
 		if strings.HasSuffix(line, "any") {
